@@ -215,12 +215,20 @@ func Shrink(t *testing.T, e Engine, p *Plan, prop, sig string, maxExec int) (*Pl
 	}
 	if s, ok := e.(Simplifier); ok {
 		for i := 0; i < len(cur.Steps) && execs < maxExec; i++ {
-			for _, alt := range s.SimplifyStep(cur.Steps[i]) {
-				q := cur.Clone()
-				q.Steps[i] = alt
-				if try(q) {
-					cur = q
-					break
+			// to a fixed point per step: a simplification that holds may open the next one
+			for progress := true; progress && execs < maxExec; {
+				progress = false
+				for _, alt := range s.SimplifyStep(cur.Steps[i]) {
+					if execs >= maxExec {
+						break
+					}
+					q := cur.Clone()
+					q.Steps[i] = alt
+					if try(q) {
+						cur = q
+						progress = true
+						break
+					}
 				}
 			}
 		}
